@@ -122,7 +122,7 @@ class _Jac(LinearOperator):
         self.fcn = fcn
         self.yparam = yparam
         self.params = list(params)
-        self.objparams = fcn.objparams()
+        self.objparams = list(fcn.objparams())
         self.yout = yout
         self.v = v
         self.idx = idx
